@@ -46,7 +46,7 @@ fn small_foreign(i: u32, ic: u8, levels: u8) -> Vec<u8> {
         entries,
         contents,
         placement: (i % 3) as u8,
-        layout: Layout { order: [0, 1, 2, 3], gaps: [0, 0, 0, 0, 0], ic, levels, fanout: 2, mixed: false, shuffle_leaves: false, empty_meta: i % 5 == 0, seed: u64::from(i), loose_ptr: false, kind_coincidence: false },
+        layout: Layout { order: [0, 1, 2, 3], gaps: [0, 0, 0, 0, 0], ic, levels, fanout: 2, mixed: false, shuffle_leaves: false, empty_meta: i % 5 == 0, seed: u64::from(i), loose_ptr: false, kind_coincidence: false, strength: 0 },
         set: Settings::plain(ic),
         stored: [-1_800_000_000, -850_000_000, 1_800_000_000, 850_000_000, 21, -21],
         meta: Meta { kind: 1, seed: 5, n: 1 },
@@ -539,10 +539,22 @@ fn measure(img: &[u8]) -> Claim {
                     continue;
                 }
                 let raw = &img[o as usize..end as usize];
-                // a streaming reader decodes whatever precedes a decompression error
-                let plain = spec::decompress_lenient(h.ic, raw, 64 << 20);
-                let Some(es) = decode_dir_generous(&plain) else {
-                    continue;
+                // a streaming reader decodes whatever precedes a decompression error; the sync and
+                // the async decoders differ in how much that is, so take whichever yields a list
+                // (the one declaring more work when both do)
+                let work = |es: &Vec<SpecEntry>| es.iter().map(|e| u64::from(e.run_length).max(1)).fold(0u64, u64::saturating_add);
+                let a = decode_dir_generous(&spec::decompress_lenient(h.ic, raw, 64 << 20));
+                let b = if h.ic == 1 { None } else { decode_dir_generous(&spec::decompress_lenient_async(h.ic, raw, 64 << 20)) };
+                let es = match (a, b) {
+                    (Some(x), Some(y)) => {
+                        if work(&y) > work(&x) {
+                            y
+                        } else {
+                            x
+                        }
+                    }
+                    (Some(x), None) | (None, Some(x)) => x,
+                    (None, None) => continue,
                 };
                 for e in es.iter().rev() {
                     if e.run_length == 0 {
@@ -891,6 +903,23 @@ pub fn dump_main(case_json: &str) -> i32 {
                     }
                     Err(e) => println!("root decompress: {e}"),
                 }
+                let len = spec::decompress_lenient(h.ic, raw, 1 << 26);
+                println!("lenient: {} bytes {:?}", len.len(), &len[..len.len().min(80)]);
+                println!("generous decode: {:?}", decode_dir_generous(&len).map(|e| e.into_iter().take(12).collect::<Vec<_>>()));
+                let la = spec::decompress_lenient_async(h.ic, raw, 1 << 26);
+                println!("lenient async: {} bytes {:?}", la.len(), &la[..la.len().min(80)]);
+                println!("generous decode (async): {:?}", decode_dir_generous(&la).map(|e| e.into_iter().take(12).collect::<Vec<_>>()));
+                let mut dd = SimDisk::plain(img.clone()).at(h.root_offset);
+                let r = crate::sut::guard_async("x", pmtiles2::Directory::from_async_reader(&mut dd, h.root_length, crate::sut::comp(h.ic)));
+                println!("crate Directory::from_async_reader: {:?}", r.map(|r| r.map(|d| (&d).into_iter().take(8).copied().collect::<Vec<_>>())));
+                for (name, pol) in [("random reads", Policy { rd: Xfer::Random(4096), wr: Xfer::Full, pend: Pend::NEVER, seed: 5 }), ("pending", Policy { rd: Xfer::Full, wr: Xfer::Full, pend: Pend { rate: 20, burst: 2, inline: 50, ctl: true }, seed: 5 }), ("one byte", Policy { rd: Xfer::One, wr: Xfer::Full, pend: Pend::NEVER, seed: 5 })] {
+                    let mut dd = SimDisk::new(img.clone(), &pol).at(h.root_offset);
+                    let r = crate::sut::guard_async("x", pmtiles2::Directory::from_async_reader(&mut dd, h.root_length, crate::sut::comp(h.ic)));
+                    println!("crate Directory::from_async_reader under {name}: {:?}", r.map(|r| r.map(|d| (&d).into_iter().take(3).copied().collect::<Vec<_>>())));
+                }
+                // what the crate itself makes of that slice
+                let d = pmtiles2::Directory::from_bytes(raw, crate::sut::comp(h.ic));
+                println!("crate Directory::from_bytes: {:?}", d.map(|d| (&d).into_iter().take(8).copied().collect::<Vec<_>>()));
             }
         }
         Err(e) => println!("header: {e}"),
